@@ -18,12 +18,20 @@ pub struct Instant(std::time::Instant);
 #[allow(dead_code)]
 impl Instant {
     pub fn now() -> Self {
+        #[cfg(biscuit_verif)]
+        if let Some(i) = verif_clock::read() {
+            return Self(i);
+        }
         Self(std::time::Instant::now())
     }
     pub fn duration_since(&self, earlier: Instant) -> Duration {
         self.0.duration_since(earlier.0)
     }
     pub fn elapsed(&self) -> Duration {
+        #[cfg(biscuit_verif)]
+        if let Some(i) = verif_clock::read() {
+            return i.duration_since(self.0);
+        }
         self.0.elapsed()
     }
     pub fn checked_add(&self, duration: Duration) -> Option<Self> {
@@ -99,5 +107,76 @@ impl AddAssign<Duration> for Instant {
 impl SubAssign<Duration> for Instant {
     fn sub_assign(&mut self, other: Duration) {
         *self = *self - other;
+    }
+}
+
+/// Verification hook (only with `--cfg biscuit_verif`): a thread-local fake clock.
+/// While installed, `Instant::now()` and `Instant::elapsed()` read `base + offset`,
+/// where `offset` only moves when the harness advances it, optionally at the k-th reading.
+#[cfg(biscuit_verif)]
+pub mod verif_clock {
+    use std::cell::RefCell;
+    use std::time::{Duration, Instant};
+
+    struct Clock {
+        base: Instant,
+        offset: Duration,
+        readings: u64,
+        jump_at: Option<(u64, Duration)>,
+    }
+
+    thread_local! {
+        static CLOCK: RefCell<Option<Clock>> = RefCell::new(None);
+    }
+
+    pub fn install() {
+        CLOCK.with(|c| {
+            *c.borrow_mut() = Some(Clock {
+                base: Instant::now(),
+                offset: Duration::from_secs(0),
+                readings: 0,
+                jump_at: None,
+            })
+        });
+    }
+
+    pub fn uninstall() {
+        CLOCK.with(|c| *c.borrow_mut() = None);
+    }
+
+    pub fn advance(d: Duration) {
+        CLOCK.with(|c| {
+            if let Some(clock) = c.borrow_mut().as_mut() {
+                clock.offset += d;
+            }
+        });
+    }
+
+    /// the `k`-th reading from now on (1-based) first advances the clock by `d`
+    pub fn jump_at(k: u64, d: Duration) {
+        CLOCK.with(|c| {
+            if let Some(clock) = c.borrow_mut().as_mut() {
+                clock.jump_at = Some((clock.readings + k, d));
+            }
+        });
+    }
+
+    pub fn readings() -> u64 {
+        CLOCK.with(|c| c.borrow().as_ref().map(|clock| clock.readings).unwrap_or(0))
+    }
+
+    pub(crate) fn read() -> Option<Instant> {
+        CLOCK.with(|c| {
+            c.borrow_mut().as_mut().map(|clock| {
+                clock.readings += 1;
+                if let Some((k, d)) = clock.jump_at {
+                    if clock.readings == k {
+                        clock.offset += d;
+                        clock.jump_at = None;
+                    }
+                }
+                clock.base + clock.offset
+            })
+        })
     }
 }
